@@ -263,12 +263,14 @@ def check_panel_analyses(led):
 
 def body(led):
     led.assume('C20: kernels and field functions are pure functions of the arguments and panel attributes they read (their contracts); '
-               'thread-count independence of the compiled prange loops is not covered here')
+               'thread-count independence of the compiled field wrappers is proved in C11 (c11_wrap), that of the integration kernels in C10')
     led.trust('cmverif symbolic executor')
     check_panel_history(led)
     check_panel_analyses(led)
     from . import c20_shell
     c20_shell.check(led)
+    from . import c20_assembly
+    c20_assembly.check(led)
 
 
 def main():
